@@ -197,7 +197,9 @@ func runV1(c *v1.Client, o *Op) (out Outcome) {
 		for _, ch := range o.Changes {
 			if ch.Create != nil {
 				gks, gad := v1KeySchema(ch.Create.Key)
-				in.AttributeDefinitions = append(in.AttributeDefinitions, gad...)
+				if !ch.Create.NoDefs {
+					in.AttributeDefinitions = append(in.AttributeDefinitions, gad...)
+				}
 				in.GlobalSecondaryIndexUpdates = append(in.GlobalSecondaryIndexUpdates, &v1sdk.GlobalSecondaryIndexUpdate{Create: &v1sdk.CreateGlobalSecondaryIndexAction{
 					IndexName: strptr(ch.Create.Name), KeySchema: gks, Projection: &v1sdk.Projection{ProjectionType: aws.String("ALL")}, ProvisionedThroughput: v1Throughput(ch.Create.TP)}})
 			} else {
